@@ -10,6 +10,10 @@ package main
 //   sandbox tuples <cfg> <name> <lo>-<hi>     every argument tuple of length lo…hi over a value pool
 //                                             (canaries, hash, record, array, raw, int, symbol, nil),
 //                                             direct / alias / apply; bare and std only
+//   sandbox history <cfg> <gate> <name>       two-text histories: text 1 binds <gate> (a name the Go code
+//                                             looks up by string) to a value / function / macro, the probes of
+//                                             <name> run as later evaluations on the same interpreter (and,
+//                                             under StandardSetup, in one text through eval)
 //
 // cfg  = bare (NewZlispSandbox) | std (+ StandardSetup) | cli (the command line tool -sandbox)
 // mode = eval (bare, std: EvalString) | repl | cmd | file (cli: lines on stdin / -c / script file)
@@ -56,6 +60,8 @@ const (
 	sbEndOut     = "77310002"
 	sbModify     = "zq-original-content\n"
 	sbSep        = "\n\x00\n"
+	// inside one script: what follows is a LATER evaluation on the same interpreter
+	sbLater = "\n// ---- later evaluation ----\n"
 	// a package file: what `import` wants to find
 	sbPkgFile = "(package \"zqpkg\"\n  (def Secret \"" + sbFileSecret + "\"))\n"
 )
@@ -325,13 +331,31 @@ func sbRunEval(d *sbDir, cfg string, scripts []string) []sbResult {
 	return res
 }
 
+// sbEvalTexts evaluates a script on env: the pieces between sbLater markers are separate
+// evaluations (texts) of one history; value and error texts are concatenated.
+func sbEvalTexts(env *zygo.Zlisp, script string) string {
+	var text string
+	for _, piece := range strings.Split(script, sbLater) {
+		v, err := env.EvalString(piece + "\n")
+		if v != nil {
+			text += v.SexpString(nil) + "\n"
+		}
+		if err != nil {
+			text += err.Error() + "\n"
+			env.Clear()
+		}
+	}
+	return text
+}
+
 // sbEvalHere evaluates the scripts one after another INSIDE this process (fast path): one
 // interpreter per battery (a new one after a host panic or a timeout), canaries reset and
 // checked around every script. A script that ends the process takes `zyh exec` with it; the
 // caller of `zyh exec` (lib/vcommon.exec_impl) then re-runs the op alone and reports
 // HOSTDEATH for it — checks/C08.py re-runs such an op in isolated mode (`probei`, `evali`)
 // to name the script.
-func sbEvalHere(d *sbDir, cfg string, scripts []string, prelude string) []sbResult {
+func sbEvalHere(d *sbDir, cfg string, scripts []string, prelude string, fresh ...bool) []sbResult {
+	everyFresh := len(fresh) > 0 && fresh[0]
 	res := make([]sbResult, len(scripts))
 	oldwd, _ := os.Getwd()
 	os.Chdir(d.c)
@@ -373,13 +397,7 @@ func sbEvalHere(d *sbDir, cfg string, scripts []string, prelude string) []sbResu
 					panicked = true
 				}
 			}()
-			v, err := env.EvalString(script + "\n")
-			if v != nil {
-				text += v.SexpString(nil)
-			}
-			if err != nil {
-				text += "\n" + err.Error()
-			}
+			text += sbEvalTexts(env, script)
 		}(env)
 		timedOut := false
 		select {
@@ -409,6 +427,9 @@ func sbEvalHere(d *sbDir, cfg string, scripts []string, prelude string) []sbResu
 			res[i].note = "hostpanic"
 			env.Close()
 			env = nil
+		} else if everyFresh {
+			env.Close()
+			env = nil
 		} else {
 			env.Clear()
 		}
@@ -423,6 +444,7 @@ func sbEvalHere(d *sbDir, cfg string, scripts []string, prelude string) []sbResu
 func sbRunCli(d *sbDir, mode, script string) sbResult {
 	d.reset()
 	r := sbResult{script: script}
+	script = strings.ReplaceAll(script, sbLater, "\n") // REPL lines are separate evaluations anyway
 	args := []string{"-sandbox", "-quiet", "-no-liner"}
 	// mode may carry further command line flags: repl:-demo:-i
 	if parts := strings.Split(mode, ":"); len(parts) > 1 {
@@ -607,6 +629,71 @@ func sbTuplesOp(cfg, name string, lo, hi int) string {
 	return sbAnswer(rs)
 }
 
+// ---------------------------------------------------------------- two-text histories
+
+// sbBinders: text 1 of a history — the script binds the name g (a name that the Go code looks
+// up by string) to a value, a function, a macro.
+func sbBinders(g string) []string {
+	return []string{
+		"(def " + g + " 0)",
+		"(defn " + g + " [& a] a)",
+		"(def " + g + " (fn [& a] a))",
+		"(defmac " + g + " [& a] nil)",
+		"(set " + g + " 0)",
+	}
+}
+
+// sbHistoryOp: for every binder of `gate` as text 1, the canary probes of `suspect` (the
+// battery of call shapes and the argument tuples of length 0…1) as LATER evaluations on the
+// same interpreter; under StandardSetup also binder and probe in ONE text with the probe
+// compiled late through eval. bare and std, in-process.
+func sbHistoryOp(cfg, gate, suspect string) string {
+	if cfg == "cli" {
+		return "bad-op"
+	}
+	d, err := sbNewDir()
+	if err != nil {
+		return "HARNESS " + err.Error()
+	}
+	defer os.RemoveAll(d.root)
+	tmplDir := &sbDir{root: "$R", c: "$D", h: "$H"}
+	probes := append(sbBattery(tmplDir, cfg, suspect), sbTupleScripts(suspect, 0, 1)...)
+	sub := func(t string) string { return strings.ReplaceAll(t, "$D", d.c) }
+	for _, b := range sbBinders(gate) {
+		scripts := make([]string, len(probes))
+		for i, t := range probes {
+			scripts[i] = sub(t)
+		}
+		pre := sbTuplePrelude(cfg) + " " + b
+		rs := sbEvalHere(d, cfg, scripts, sub(pre))
+		for i := range rs {
+			rs[i].tmpl = pre + sbLater + probes[i]
+		}
+		if a := sbAnswer(rs); a != "clean" {
+			return a
+		}
+		if cfg == "bare" {
+			continue // no eval there
+		}
+		var one, oneT []string
+		for _, k := range []int{0, 7, 10, 11, 14} {
+			if k < len(probes) {
+				t := sbTuplePrelude(cfg) + " " + b + " (eval (quote " + probes[k] + "))"
+				oneT = append(oneT, t)
+				one = append(one, sub(t))
+			}
+		}
+		rs = sbEvalHere(d, cfg, one, "", true)
+		for i := range rs {
+			rs[i].tmpl = oneT[i]
+		}
+		if a := sbAnswer(rs); a != "clean" {
+			return a
+		}
+	}
+	return "clean"
+}
+
 // ---------------------------------------------------------------- exec
 
 func sbExec(toks []string) string {
@@ -680,6 +767,17 @@ func sbExec(toks []string) string {
 		}
 		_ = n
 		return sbAnswer(rs)
+	case "history":
+		// history <cfg> <gate name> <suspect name>
+		if len(toks) != 4 {
+			return "bad-op"
+		}
+		gb, ok1 := codesToBytes(toks[2])
+		nb, ok2 := codesToBytes(toks[3])
+		if !ok1 || !ok2 {
+			return "bad-op"
+		}
+		return sbHistoryOp(cfg, string(gb), string(nb))
 	case "tuples":
 		// tuples <cfg> <name> <lo>-<hi>
 		if len(toks) != 4 {
@@ -811,13 +909,7 @@ func sbChildMain(args []string) {
 			}()
 			env := sbMkEnv(cfg)
 			defer env.Close()
-			v, err := env.EvalString(script + "\n")
-			if v != nil {
-				text += v.SexpString(nil)
-			}
-			if err != nil {
-				text += "\n" + err.Error()
-			}
+			text += sbEvalTexts(env, script)
 		}()
 		select {
 		case <-done:
